@@ -146,3 +146,40 @@ func VxC13ReplayEquivalence() {
 		}
 	}
 }
+
+// C13-H4: a timeout is logged before anything it causes becomes visible. The machine is put in an
+// arbitrary (round, step) of height 1; a timeout of an arbitrary kind / round fires; whenever the
+// returned action list contains a broadcast or a commit, a WriteWAL of that timeout comes first -
+// Driver.execute flushes the log before it lets a broadcast out, so after a crash the replayed
+// machine has seen the timeout whose effect the peers have seen.
+func VxC13TimeoutLoggedBeforeEffect() {
+	vx.Bound("N=4 validators, node 1, height 1; machine in an arbitrary round 0..2 and step propose/prevote/precommit; one timeout with arbitrary step and round 0..2")
+	const h = types.Height(1)
+	app := &vxApp{next: vxV{1}}
+	sm := New[vxV, vxH, vxA](log.NewNopZapLogger(), vxA{1}, app, vxVals{}, h).(*vxSM)
+	sm.isHeightStarted = true
+	sm.state.round = vxRound("round")
+	st := types.Step(vx.U8("step"))
+	vx.Assume(st <= 2)
+	sm.state.step = st
+	ts := types.Step(vx.U8("t.step"))
+	vx.Assume(ts <= 2)
+	tm := types.Timeout{Step: ts, Height: h, Round: vxRound("t.round")}
+	acts := sm.ProcessTimeout(tm)
+	logged := false
+	for _, a := range acts {
+		switch x := a.(type) {
+		case *actions.WriteWAL[vxV, vxH, vxA]:
+			if t, ok := x.Entry.(*wal.Timeout); ok && types.Timeout(*t) == tm {
+				logged = true
+			}
+		case *actions.BroadcastProposal[vxV, vxH, vxA], *actions.BroadcastPrevote[vxH, vxA],
+			*actions.BroadcastPrecommit[vxH, vxA], *actions.Commit[vxV, vxH, vxA]:
+			vx.Cover("timeout-has-a-visible-effect")
+			vx.Assert(logged, "timeout-logged-before-its-visible-effect")
+		}
+	}
+	if len(acts) == 0 {
+		vx.Cover("timeout-ignored")
+	}
+}
